@@ -6,6 +6,8 @@ CONSTANTS
   MaxLen = @@LEN@@
   BodyClasses = {"any"}
   Flags = {"none", "enc", "zpre"}
+  MaxFrames = 1
+  Threads = {1}
   MaxStall = 1
   Chunking = "all"
   Dev = {"shortHeader", "emptyNoLen", "unboundedInflate"}
